@@ -432,6 +432,14 @@ class ConfigNode(metaclass=ConfigNodeMeta):
     # returning the latter. Therefore the final result is equivalent to returning "dict" but with extra elements specific to the "!bind" node.
     #
 
+    def _get_merged_safe(self):
+        ''' Safety which a node brings into a merge: a node which is unsafe only because it lives inside of an unsafe
+            node (inherited flag) is still unsafe content for the node it is merged with.
+        '''
+        if self._safe is False or self._implicit_safe is False:
+            return False
+        return self._safe
+
     def _replace_self(self, other, allow_promotions=False):
         ''' Helper that should be called whenever "other" is merged into "self" with higher priority,
             but we want to keep the resulting object inside the memory of "self".
@@ -440,8 +448,9 @@ class ConfigNode(metaclass=ConfigNodeMeta):
         '''
         self._priority = other._priority
         self._delete = other._delete
-        if other._safe is not None:
-            self._safe = notnone_or(self._safe, True) and other._safe
+        other_safe = other._get_merged_safe()
+        if other_safe is not None:
+            self._safe = notnone_or(self._safe, True) and other_safe
         if other._default_safe is not None:
             self._default_safe = notnone_or(self._default_safe, True) and other._default_safe
         self._metadata = { **self._metadata, **other._metadata }
@@ -463,8 +472,9 @@ class ConfigNode(metaclass=ConfigNodeMeta):
             In such case, its content will be identical to the content of "self" after replacement has been done,
             with any extra content coming from other's type preserved.
         '''
-        if other._safe is not None:
-            self._safe = notnone_or(self._safe, True) and other._safe
+        other_safe = other._get_merged_safe()
+        if other_safe is not None:
+            self._safe = notnone_or(self._safe, True) and other_safe
         if other._default_safe is not None:
             self._default_safe = notnone_or(self._default_safe, True) and other._default_safe
         self._metadata = { **other._metadata, **self._metadata }
